@@ -389,7 +389,8 @@ class IndexBase(ContainerOperand):
         post = self
         for other in others:
             post = post._ufunc_set(func, other)
-        return post
+        # with no operands, a grow-only index must still not hand out itself
+        return post if (post is not self or self.STATIC) else self.copy()
 
     def union(self: I, *others: tp.Union['IndexBase', tp.Iterable[tp.Hashable]]) -> I:
         '''
@@ -402,7 +403,8 @@ class IndexBase(ContainerOperand):
         post = self
         for other in others:
             post = post._ufunc_set(func, other)
-        return post
+        # with no operands, a grow-only index must still not hand out itself
+        return post if (post is not self or self.STATIC) else self.copy()
 
 
     def difference(self: I, other: tp.Union['IndexBase', tp.Iterable[tp.Hashable]]) -> I:
